@@ -44,6 +44,11 @@ CHECKS['C16'] = dict(engine='CH', category='model_checking', design='4/C16',
    text='For every lexeme up to the bound of each value-carrying token kind (single/double quoted strings with escapes, @/@@ variables in all quoting forms, identifiers, numbers) the text rebuilt by tokens_to_string is exactly the source text; for 11 concrete tricky lexemes every layout (gaps 0..2, line breaks, block and line comments on either side) is rebuilt equal up to whitespace/comments and re-tokenises to the same values; each of the 11 embedding commands stores an inner query that equals the source up to whitespace/comments and parses to the same tree.',
    note='Trusted: CrossHair str model; STUB: Lexeme(str subclass) modelled as a plain holder with .raw inside the symbolic content harnesses (real class in layout leaves and wiring). Bounds: lexeme <= 4 (quick) / 6 (thorough) chars.')
 
+CHECKS['C19'] = dict(engine='CH+SYMTOK', category='model_checking', design='4/C19',
+   technique='CrossHair (z3) over symbolic token geometry for the real error_location / MindsDBLexer.error; symbolic token streams (SYMTOK) through the real parse_sql tail with every suggestion re-submitted to the real parser',
+   text='Location: for every layout of three tokens (lengths 1..3, gaps 0..2, 0..2 line breaks, leading blank line) and every offending token or end-of-input, the text under the carets of the real message is exactly the offending token (one past the last token for end of input) and the displayed lines are source lines; the lexer\'s illegal-character message points at the character. Suggestions: on every error path of the mindsdb dialect over all token streams of length <= K and corpus neighbourhoods, the offending token is the first one the grammar cannot accept and every concrete keyword/symbol suggested is shifted by the real parser when placed after the accepted prefix.',
+   note='Trusted: CrossHair path bookkeeping (geometry leaves run natively), SYMTOK explorer, representative lexemes. Bounds: 3-token layouts; K<=3 quick / 4 thorough; 80 / all corpus statements. Comments are whitespace to the lexer (absolute positions), so they are covered by the gap variables.')
+
 NA_PENDING = {}
 
 
